@@ -3,11 +3,13 @@
 package c09
 
 import (
+	"context"
 	"errors"
 	"fmt"
 	"reflect"
 	"strings"
 	"testing"
+	"time"
 
 	"gorm.io/gorm"
 	"pgregory.net/rapid"
@@ -21,7 +23,7 @@ import (
 
 func TestMain(m *testing.M) { harness.Main(m) }
 
-const rule = "C09: (i) chains made only of condition-free calls - Where/Not/Or with \"\", map{}, &T{}, []int{} or an empty grouped builder; Order, Limit, Scopes(identity), Unscoped, Select, Omit, Table, Model(&T{}), Session{} - ending in Update, Updates(map/struct), UpdateColumn, UpdateColumns(map/struct), Delete(&T{}), Delete(&T{}, empty inline), Delete of a zero-key / empty slice, for a plain and a soft-delete model, with AllowGlobalUpdate off / on in the config / on in a session: enumerated exhaustively to the stated length and drawn at random up to length 7; off: the error is ErrMissingWhereClause, the recording driver saw no prepare/exec/query/commit, the table is unchanged; on: no error and every visible row is affected. (ii) chains mixing such calls with at least one effective condition drawn from the C02 units (also ones matching nothing, e.g. IN (NULL)), a keyed model value or keyed slice element: the error is never ErrMissingWhereClause (nor any other). non-trivial = at least two condition-free calls one of which is an empty condition form; distinct = model + AllowGlobalUpdate mode + chain + finisher"
+const rule = "C09: (i) chains made only of condition-free calls - Where/Not/Or with \"\", map{}, &T{}, []int{} or an empty grouped builder; Order, Limit, Scopes(identity), Unscoped, Select, Omit, Table, Model(&T{}), Session{} - ending in Update, Updates(map/struct), UpdateColumn, UpdateColumns(map/struct), Delete(&T{}), Delete(&T{}, empty inline), Delete of a zero-key / empty slice, for a plain model and five soft-delete models (one gorm.DeletedAt; two DeletedAt fields, the second with a custom column; one field with its own field/column name; DeletedAt inside an anonymous embedded struct; DeletedAt plus a prefixed embedded one), with AllowGlobalUpdate off / on in the config / on in a session: enumerated exhaustively to the stated length (model variants one call shorter) and drawn at random up to length 7; plus the used-chain-value shape q := db.Model(&T{}).<calls>; q.<Updates(map{}) | Updates(T{}) | Raw.Scan | Count | Find>; q.<nothing | Session{} | WithContext | Session{AllowGlobalUpdate:false} | Session{SkipHooks}>.<calls>.<finisher> (enumerated with one call before/after, random beyond), AllowGlobalUpdate off; off: the error is ErrMissingWhereClause, the recording driver saw no prepare/exec/query/commit, the table is unchanged; on: no error and every visible row is affected. (ii) chains mixing such calls with at least one effective condition drawn from the C02 units (also ones matching nothing, e.g. IN (NULL)), a keyed model value or keyed slice element: the error is never ErrMissingWhereClause (nor any other). non-trivial = at least two condition-free calls one of which is an empty condition form; distinct = model + AllowGlobalUpdate mode + chain + finisher"
 
 // ---- models -----------------------------------------------------------------------------------------
 
@@ -38,48 +40,113 @@ type SItem struct {
 
 func (SItem) TableName() string { return "s_items" }
 
-type modelKind struct {
-	Name   string
-	Spec   cond.TableSpec
-	Zero   func() interface{}           // &T{}
-	Keyed  func(id int) interface{}     // &T{ID: id}
-	Slice  func(ids ...int) interface{} // &[]T{{ID: ..}, ...}
-	Marked func() interface{}           // T{Mark: 7}
-	Type   reflect.Type
+// S2Item has two soft-delete fields, the second under a custom column name.
+type S2Item struct {
+	ID         int `gorm:"primaryKey"`
+	Ca         int
+	Cb         int
+	Cs         string
+	Cn         *int
+	Ct         *string
+	Mark       int
+	DeletedAt  gorm.DeletedAt
+	ArchivedAt gorm.DeletedAt `gorm:"column:archived_on"`
 }
+
+func (S2Item) TableName() string { return "s2_items" }
+
+// SCItem: one soft-delete field with a field and column name of its own.
+type SCItem struct {
+	ID        int `gorm:"primaryKey"`
+	Ca        int
+	Cb        int
+	Cs        string
+	Cn        *int
+	Ct        *string
+	Mark      int
+	RemovedOn gorm.DeletedAt `gorm:"column:removed_on"`
+}
+
+func (SCItem) TableName() string { return "sc_items" }
+
+// Trail is embedded into SEItem and carries the soft-delete field.
+type Trail struct {
+	DeletedAt gorm.DeletedAt
+}
+
+type SEItem struct {
+	ID   int `gorm:"primaryKey"`
+	Ca   int
+	Cb   int
+	Cs   string
+	Cn   *int
+	Ct   *string
+	Mark int
+	Trail
+}
+
+func (SEItem) TableName() string { return "se_items" }
+
+// SPItem: embedded struct with a column prefix next to a plain DeletedAt (two fields again).
+type SPItem struct {
+	ID        int `gorm:"primaryKey"`
+	Ca        int
+	Cb        int
+	Cs        string
+	Cn        *int
+	Ct        *string
+	Mark      int
+	DeletedAt gorm.DeletedAt
+	Hist      Trail `gorm:"embedded;embeddedPrefix:hist_"`
+}
+
+func (SPItem) TableName() string { return "sp_items" }
+
+type modelKind struct {
+	Name string
+	Spec cond.TableSpec
+	Type reflect.Type
+}
+
+func (m modelKind) Zero() interface{} { return reflect.New(m.Type).Interface() } // &T{}
+
+func (m modelKind) Keyed(id int) interface{} { // &T{ID: id}
+	p := reflect.New(m.Type)
+	p.Elem().FieldByName("ID").SetInt(int64(id))
+	return p.Interface()
+}
+
+func (m modelKind) Slice(ids ...int) interface{} { // &[]T{{ID: ..}, ...}
+	p := reflect.New(reflect.SliceOf(m.Type))
+	p.Elem().Set(reflect.MakeSlice(reflect.SliceOf(m.Type), len(ids), len(ids)))
+	for i, id := range ids {
+		p.Elem().Index(i).FieldByName("ID").SetInt(int64(id))
+	}
+	return p.Interface()
+}
+
+func (m modelKind) Marked() interface{} { // T{Mark: 7}
+	p := reflect.New(m.Type)
+	p.Elem().FieldByName("Mark").SetInt(7)
+	return p.Elem().Interface()
+}
+
+func (m modelKind) EmptySlicePtr() interface{} {
+	return reflect.New(reflect.SliceOf(m.Type)).Interface()
+}
+
+func (m modelKind) soft() bool { return m.Spec.Soft || len(m.Spec.SoftCols) > 0 }
 
 var models = map[string]modelKind{
-	"plain": {
-		Name: "plain", Spec: cond.TableSpec{Name: "items"},
-		Zero:  func() interface{} { return &cond.Item{} },
-		Keyed: func(id int) interface{} { return &cond.Item{ID: id} },
-		Slice: func(ids ...int) interface{} {
-			s := make([]cond.Item, len(ids))
-			for i, id := range ids {
-				s[i].ID = id
-			}
-			return &s
-		},
-		Marked: func() interface{} { return cond.Item{Mark: 7} },
-		Type:   reflect.TypeOf(cond.Item{}),
-	},
-	"soft": {
-		Name: "soft", Spec: cond.TableSpec{Name: "s_items", Soft: true},
-		Zero:  func() interface{} { return &SItem{} },
-		Keyed: func(id int) interface{} { return &SItem{ID: id} },
-		Slice: func(ids ...int) interface{} {
-			s := make([]SItem, len(ids))
-			for i, id := range ids {
-				s[i].ID = id
-			}
-			return &s
-		},
-		Marked: func() interface{} { return SItem{Mark: 7} },
-		Type:   reflect.TypeOf(SItem{}),
-	},
+	"plain":    {Name: "plain", Spec: cond.TableSpec{Name: "items"}, Type: reflect.TypeOf(cond.Item{})},
+	"soft":     {Name: "soft", Spec: cond.TableSpec{Name: "s_items", Soft: true}, Type: reflect.TypeOf(SItem{})},
+	"soft2":    {Name: "soft2", Spec: cond.TableSpec{Name: "s2_items", SoftCols: []string{"deleted_at", "archived_on"}}, Type: reflect.TypeOf(S2Item{})},
+	"softcol":  {Name: "softcol", Spec: cond.TableSpec{Name: "sc_items", SoftCols: []string{"removed_on"}}, Type: reflect.TypeOf(SCItem{})},
+	"softemb":  {Name: "softemb", Spec: cond.TableSpec{Name: "se_items", Soft: true}, Type: reflect.TypeOf(SEItem{})},
+	"soft2emb": {Name: "soft2emb", Spec: cond.TableSpec{Name: "sp_items", SoftCols: []string{"deleted_at", "hist_deleted_at"}}, Type: reflect.TypeOf(SPItem{})},
 }
 
-var modelNames = []string{"plain", "soft"}
+var modelNames = []string{"plain", "soft", "soft2", "softcol", "softemb", "soft2emb"}
 
 var aguModes = []string{"off", "config", "session"}
 
@@ -213,26 +280,89 @@ var finIndex = func() map[string]int {
 
 // ---- part (i): condition-free chains -------------------------------------------------------------------
 
-// Case is the replayable form of a condition-free chain.
+// Case is the replayable form of a condition-free chain. With Prime set the
+// program is: q := db.Model(&T{}) (a chain value, not a fresh session) . Pre... ;
+// q.<Prime> (an operation that neither fails nor adds a condition) ;
+// q.<Derive> . Calls... . Fin
 type Case struct {
-	Model string   `json:"model"`
-	AGU   string   `json:"allow_global_update"`
-	Calls []string `json:"calls"`
-	Fin   string   `json:"finisher"`
+	Model  string   `json:"model"`
+	AGU    string   `json:"allow_global_update"`
+	Pre    []string `json:"pre,omitempty"`
+	Prime  string   `json:"prime,omitempty"`
+	Derive string   `json:"derive,omitempty"`
+	Calls  []string `json:"calls"`
+	Fin    string   `json:"finisher"`
 }
 
 func (c Case) String() string {
-	return fmt.Sprintf("model=%s AllowGlobalUpdate=%s db.%s", c.Model, c.AGU, strings.Join(append(append([]string{}, c.Calls...), c.Fin), "."))
+	chain := strings.Join(append(append([]string{}, c.Calls...), c.Fin), ".")
+	if c.Prime == "" {
+		return fmt.Sprintf("model=%s AllowGlobalUpdate=%s db.%s", c.Model, c.AGU, chain)
+	}
+	q := strings.Join(append([]string{"Model(&T{})"}, c.Pre...), ".")
+	d := ""
+	if c.Derive != "" {
+		d = c.Derive + "."
+	}
+	return fmt.Sprintf("model=%s AllowGlobalUpdate=%s q := db.%s; q.%s; q.%s%s", c.Model, c.AGU, q, c.Prime, d, chain)
 }
 
+// primes are operations that run on the chain value first: they leave the
+// automatic soft-delete filter (and whatever else they build) on its statement,
+// add no condition and do not fail.
+var primes = []struct {
+	Name string
+	Run  func(q *gorm.DB, m modelKind) error
+}{
+	{`Updates(map{})`, func(q *gorm.DB, m modelKind) error { return q.Updates(map[string]interface{}{}).Error }},
+	{`Updates(T{})`, func(q *gorm.DB, m modelKind) error { return q.Updates(reflect.New(m.Type).Elem().Interface()).Error }},
+	{`Raw(count).Scan`, func(q *gorm.DB, m modelKind) error {
+		var n int64
+		return q.Raw("SELECT count(*) FROM " + m.Spec.Name).Scan(&n).Error
+	}},
+	{`Count`, func(q *gorm.DB, m modelKind) error {
+		var n int64
+		return q.Count(&n).Error
+	}},
+	{`Find`, func(q *gorm.DB, m modelKind) error { return q.Find(m.EmptySlicePtr()).Error }},
+}
+
+var primeIndex = func() map[string]int {
+	m := map[string]int{}
+	for i, p := range primes {
+		m[p.Name] = i
+	}
+	return m
+}()
+
+// derives turn the used chain value into the handle the finisher runs on.
+var derives = []struct {
+	Name string
+	Run  func(q *gorm.DB) *gorm.DB
+}{
+	{``, func(q *gorm.DB) *gorm.DB { return q }},
+	{`Session{}`, func(q *gorm.DB) *gorm.DB { return q.Session(&gorm.Session{}) }},
+	{`WithContext(ctx)`, func(q *gorm.DB) *gorm.DB { return q.WithContext(context.Background()) }},
+	{`Session{AllowGlobalUpdate:false}`, func(q *gorm.DB) *gorm.DB { return q.Session(&gorm.Session{AllowGlobalUpdate: false}) }},
+	{`Session{SkipHooks}`, func(q *gorm.DB) *gorm.DB { return q.Session(&gorm.Session{SkipHooks: true}) }},
+}
+
+var deriveIndex = func() map[string]int {
+	m := map[string]int{}
+	for i, p := range derives {
+		m[p.Name] = i
+	}
+	return m
+}()
+
 func open(m modelKind, agu string) (*testdb.DB, *gorm.DB, error) {
-	cfg := gorm.Config{AllowGlobalUpdate: agu == "config"}
+	cfg := gorm.Config{AllowGlobalUpdate: agu == "config", NowFunc: func() time.Time { return testdb.FixedNow }}
 	d := testdb.Open(testdb.Options{Config: cfg})
 	if err := m.Spec.Create(d.SQL); err != nil {
 		d.Close()
 		return nil, nil, err
 	}
-	if err := m.Spec.Insert(d.SQL, baseRows(m.Spec.Soft)); err != nil {
+	if err := m.Spec.Insert(d.SQL, baseRows(m.soft())); err != nil {
 		d.Close()
 		return nil, nil, err
 	}
@@ -276,9 +406,41 @@ func checkFree(c Case) (string, error) {
 	if err != nil {
 		return "", err
 	}
-	d.Rec.Reset()
 	unscoped := false
 	tx := db
+	if c.Prime != "" {
+		q := db.Model(m.Zero())
+		for _, name := range c.Pre {
+			i, ok := alphaIndex[name]
+			if !ok {
+				return "", fmt.Errorf("unknown call %q", name)
+			}
+			q = alphabet[i].Apply(q, d.DB, m)
+			if name == "Unscoped()" {
+				unscoped = true
+			}
+		}
+		pi, ok := primeIndex[c.Prime]
+		if !ok {
+			return "", fmt.Errorf("unknown priming operation %q", c.Prime)
+		}
+		if err := primes[pi].Run(q, m); err != nil {
+			return fmt.Sprintf("the preparing operation %s failed: %v", c.Prime, err), nil
+		}
+		mid, err := m.Spec.Dump(d.SQL)
+		if err != nil {
+			return "", err
+		}
+		if dumpString(mid) != dumpString(before) {
+			return fmt.Sprintf("the preparing operation %s changed the table: %s, was %s", c.Prime, dumpString(mid), dumpString(before)), nil
+		}
+		di, ok := deriveIndex[c.Derive]
+		if !ok {
+			return "", fmt.Errorf("unknown derivation %q", c.Derive)
+		}
+		tx = derives[di].Run(q)
+	}
+	d.Rec.Reset()
 	for _, name := range c.Calls {
 		i, ok := alphaIndex[name]
 		if !ok {
@@ -320,7 +482,7 @@ func checkFree(c Case) (string, error) {
 	if res.Error != nil {
 		return fmt.Sprintf("AllowGlobalUpdate is on but the statement failed: %v", res.Error), nil
 	}
-	visible := func(s cond.Stored) bool { return !m.Spec.Soft || unscoped || s.DeletedAt == "NULL" }
+	visible := func(s cond.Stored) bool { return !m.soft() || unscoped || s.Live() }
 	idx := map[int]cond.Stored{}
 	for _, a := range after {
 		idx[a.ID] = a
@@ -334,9 +496,9 @@ func checkFree(c Case) (string, error) {
 		case !fin.Delete:
 			want.Mark = 7
 			affected++
-		case m.Spec.Soft && !unscoped:
+		case m.soft() && !unscoped:
 			affected++
-			if !exists || a.DeletedAt == "NULL" {
+			if !exists || a.Live() {
 				return fmt.Sprintf("global soft delete left row id %d live: %s", b.ID, dumpString(after)), nil
 			}
 			want.DeletedAt = a.DeletedAt
@@ -362,18 +524,22 @@ func checkFree(c Case) (string, error) {
 
 func freeNontrivial(c Case) bool {
 	empty := false
-	for _, n := range c.Calls {
+	all := append(append([]string{}, c.Pre...), c.Calls...)
+	for _, n := range all {
 		if alphabet[alphaIndex[n]].EmptyCond {
 			empty = true
 		}
 	}
-	return len(c.Calls) >= 2 && empty
+	return len(all) >= 2 && empty
 }
 
 func freeClasses(c Case) []string {
 	cl := []string{"part:condition-free", "model:" + c.Model, "agu:" + c.AGU, "fin:" + c.Fin, fmt.Sprintf("len:%d", len(c.Calls))}
+	if c.Prime != "" {
+		cl = append(cl, "shape:used-chain-value", "prime:"+c.Prime, "derive:"+c.Derive)
+	}
 	seen := map[string]bool{}
-	for _, n := range c.Calls {
+	for _, n := range append(append([]string{}, c.Pre...), c.Calls...) {
 		if !seen[n] {
 			seen[n] = true
 			cl = append(cl, "call:"+n)
@@ -412,6 +578,12 @@ func TestC09Exhaustive(t *testing.T) {
 	rec = func(prefix []string) {
 		for _, mn := range modelNames {
 			for _, agu := range aguModes {
+				// the full length for the two basic models, one call less for the
+				// model variants (same guard path; the random part draws longer
+				// chains for them) - keeps the enumeration inside the time budget
+				if mn != "plain" && mn != "soft" && len(prefix) == maxLen && maxLen > 0 {
+					continue
+				}
 				for _, f := range finishers {
 					n++
 					if n%shards != shard {
@@ -441,6 +613,55 @@ func TestC09Exhaustive(t *testing.T) {
 		}
 	}
 	rec(nil)
+	// the used-chain-value family: every preparing operation x derivation x
+	// one condition-free call before and after (quick: a reduced set of calls)
+	// x finisher x model, AllowGlobalUpdate off
+	mids := []string{"", `Where("")`, `Or(&T{})`, `Unscoped()`, `Model(&T{})`, `Session{}`}
+	if maxLen >= 3 {
+		mids = []string{""}
+		for _, a := range alphabet {
+			mids = append(mids, a.Name)
+		}
+	}
+	pres := []string{"", `Unscoped()`}
+	if maxLen >= 3 {
+		pres = []string{"", `Where("")`, `Unscoped()`, `Or(map{})`}
+	}
+	for _, mn := range modelNames {
+		for _, pr := range primes {
+			for _, dv := range derives {
+				for _, pre := range pres {
+					for _, mid := range mids {
+						for _, f := range finishers {
+							n++
+							if n%shards != shard {
+								continue
+							}
+							c := Case{Model: mn, AGU: "off", Prime: pr.Name, Derive: dv.Name, Calls: []string{}, Fin: f.Name}
+							if pre != "" {
+								c.Pre = []string{pre}
+							}
+							if mid != "" {
+								c.Calls = []string{mid}
+							}
+							reportFree(c)
+							msg, err := checkFree(c)
+							if err != nil {
+								t.Fatalf("harness: %v, case: %s", err, c)
+							}
+							if msg != "" {
+								failed++
+								if failed <= 5 {
+									harness.SaveCase("TestC09Exhaustive", c)
+									t.Errorf("C09 violated: %s, case: %s", msg, c)
+								}
+							}
+						}
+					}
+				}
+			}
+		}
+	}
 	if failed > 5 {
 		t.Errorf("C09 violated by %d enumerated chains in this shard (first 5 shown)", failed)
 	}
@@ -454,9 +675,24 @@ func TestC09Random(t *testing.T) {
 	evid.Rule(rule)
 	rapid.Check(t, func(rt *rapid.T) {
 		x := cond.G(rt)
-		c := Case{Model: modelNames[x.N(2)], AGU: aguModes[x.N(3)], Fin: finishers[x.N(len(finishers))].Name}
+		c := Case{Model: modelNames[x.N(len(modelNames))], AGU: aguModes[x.N(3)], Fin: finishers[x.N(len(finishers))].Name}
 		for k := 3 + x.N(5); k > 0; k-- {
 			c.Calls = append(c.Calls, alphabet[x.N(len(alphabet))].Name)
+		}
+		if x.Pct(45) {
+			// used chain value: part of the calls go before the preparing operation
+			c.AGU = "off"
+			c.Prime = primes[x.N(len(primes))].Name
+			c.Derive = derives[x.N(len(derives))].Name
+			k := x.N(len(c.Calls) + 1)
+			c.Pre, c.Calls = c.Calls[:k:k], c.Calls[k:]
+			for _, name := range c.Pre {
+				// with Select("mark") an all-zero struct is no longer an empty
+				// update (it sets mark = 0): not a condition-free preparation
+				if name == `Select("mark")` && c.Prime == `Updates(T{})` {
+					c.Prime = `Updates(map{})`
+				}
+			}
 		}
 		reportFree(c)
 		msg, err := checkFree(c)
@@ -548,7 +784,7 @@ func TestC09Effective(t *testing.T) {
 	evid.Rule(rule)
 	rapid.Check(t, func(rt *rapid.T) {
 		x := cond.G(rt)
-		c := effCase{Model: modelNames[x.N(2)], Fin: finishers[x.N(len(finishers))].Name}
+		c := effCase{Model: modelNames[x.N(len(modelNames))], Fin: finishers[x.N(len(finishers))].Name}
 		cfg := cond.Cfg{MaxID: 3, LeadingOr: true, EmptyIn: true, MaxDepth: 2}
 		var calls []cond.Call
 		// the source of the effective condition: a unit, the key of the model value, or both
